@@ -19,11 +19,11 @@ META = {
     "text": "Coq theorems on coq/Tree/TreeDefs.v (ALT tree with empty payloads, PoW tree): Inv_flags (proper tree, heights follow "
             "parents, failed parent => FAILED_CHILD hence every descendant of a failed block is failed, live blocks >= VALID_TREE) "
             "and a non-failed best-chain tip hold initially and are preserved by EVERY operation of both trees (hdr/body/set/inv/"
-            "reval/rm/rmpl), lifted over op lists; hence the best chain runs through non-failed blocks only. The tips conjunct "
-            "(tips = usable blocks without usable child) is proved for set/inv/reval/rm of both trees and hdr(new block)/body/rmpl of "
-            "the ALT tree. _partial, exact missing pieces: tips conjunct for re-adding a REMOVED block and for the PoW "
-            "acceptBlockHeader (both need the model invariant S3 'a removed block is at VALID_UNKNOWN with only removed children'); "
-            "the conjuncts ACTIVE <=> on the best chain / appliedBlockCount = |chain| / connected => ancestors connected. The full "
+            "reval/rm/rmpl), lifted over op lists; hence the best chain runs through non-failed blocks only. Inv_tree = Inv_flags "
+            "+ S3 (a removed block is at VALID_UNKNOWN without ACTIVE/HAS_PAYLOADS and has only removed children) + the tips "
+            "conjunct (tips = usable blocks without usable child) is preserved by EVERY operation of both trees (no _partial). "
+            "Not proved in the model: ACTIVE <=> on the best chain / appliedBlockCount = |chain| / connected => ancestors "
+            "connected (invariants C1, C2, V2 of the checker decide them on the implementation). The full "
             "invariant list of harness/invariants.hpp (S1-S3 V1-V3 F1 T1 C1 C2 P1 P2 R1; ALT, VBK and BTC trees) is evaluated on the "
             "implementation after EVERY step of general honest histories with payloads and mempool activity and of the ALT/PoW model histories, which are "
             "also compared with the model per step",
